@@ -128,6 +128,11 @@ func (p *Program) genVC(con *Contract, sorts map[string]string) (vc *VC, err err
 			post.vars[k] = v
 		}
 		bindResults(post, ex.results)
+		// vacuity: the facts that lead to this return must not be contradictory (a contradictory invariant or
+		// specification-function axiom would discharge every obligation after it). A single unreachable return can be
+		// legitimate (a guard the precondition excludes); all returns unreachable is reported.
+		vc.obls = append(vc.obls, &Obligation{Name: fc.uniq(fmt.Sprintf("%s/vacuity:reach@%s", shortName(fn), site)), Kind: "vacuity", Func: shortName(fn),
+			Guard: ex.state.reach, Goal: "false", Tag: vc.curTag, NAsserts: len(vc.asserts), vc: vc, Expect: "sat", Desc: "the path facts at this return are satisfiable", Props: con.props()})
 		for i, e := range con.Ensures {
 			if e.Assumed {
 				continue
